@@ -6,7 +6,7 @@ EN(k, sub) == [k |-> k, v |-> 0, sp |-> 0, sub |-> sub]
 Nd(p, ps) == [proc |-> p, ps |-> ps, flow |-> FALSE, quoted |-> FALSE, sweep |-> NoSweep]
 Sw(el, vals, mode, bc, expr) ==
     [proc |-> el, ps |-> <<>>, flow |-> FALSE, quoted |-> FALSE,
-     sweep |-> [on |-> TRUE, vals |-> vals, ints |-> FALSE, ctx2 |-> FALSE, vorder |-> FALSE, mode |-> mode, bc |-> bc, expr |-> expr, coll |-> "FloatDataCollection", el |-> el]]
+     sweep |-> [on |-> TRUE, vname |-> "t", vals |-> vals, ints |-> FALSE, ctx2 |-> FALSE, vorder |-> FALSE, mode |-> mode, bc |-> bc, expr |-> expr, coll |-> "FloatDataCollection", el |-> el]]
 Seed1 == << Nd("FloatValueDataSource", <<E("value", 1)>>),
             Nd("FloatMultiplyOperation", <<E("factor", 3)>>),
             Nd("VNestedOperation", <<E("gain", 2), EN("opts", <<S("alpha", 1), S("beta", 2)>>)>>) >>
@@ -16,5 +16,6 @@ Seed3 == << Nd("FloatValueDataSource", <<E("value", 1)>>),
             Nd("FloatMultiplyOperation", <<E("factor", 3)>>), Nd("FloatMultiplyOperation", <<E("factor", 3)>>) >>
 Seed4 == << Sw("FloatValueDataSource", <<2, 3, 4>>, "by_position", TRUE, <<"-", <<"t">>, <<"c", 1>>>>) >>
 Seed5 == << [Sw("FloatValueDataSource", <<1, 2>>, "combinatorial", FALSE, <<"*", <<"t">>, <<"c", 2>>>>) EXCEPT !.sweep.ctx2 = TRUE] >>
-AllSeeds == {Seed1, Seed2, Seed3, Seed4, Seed5}
+Seed6 == << [Sw("FloatValueDataSource", <<2, 3>>, "combinatorial", FALSE, <<"+", <<"t">>, <<"c", 1>>>>) EXCEPT !.sweep.vname = "expr"] >>
+AllSeeds == {Seed1, Seed2, Seed3, Seed4, Seed5, Seed6}
 =============================================================================
